@@ -30,7 +30,7 @@ CONFIG = {
             'whose passes have different lengths',
     'assumptions': _ASSUME,
     'trusted_base': _TRUST,
-    'partial': ['C08_returns_statement (termination of BeforeFirst: only C08_returns_no_deadlock is proved)'],
+    'partial': [],
 }
 
 MANIFEST = {
@@ -40,7 +40,8 @@ MANIFEST = {
             'rewind callback runs exactly once per posted command, no other call overlaps, no deadlock. Correspondence and '
             'oracles on programs with BeforeFirst at every point of consumption under the controlled scheduler.',
     'design_ref': 'DESIGN.md section 7 C08',
-    'note': 'Trusted base as C07. Termination of the call is proved as deadlock freedom only.',
+    'note': 'Trusted base as C07. BeforeFirst returns: deadlock freedom + well-founded progress measure (C08_returns); spurious '
+            'wake-ups are not counted as progress.',
     'technique': 'Lean 4 proof (inductive invariants of a transition system) + source-to-Lean translator + controlled-scheduler '
                  'differential correspondence',
 }
